@@ -277,6 +277,13 @@ example : (match runC exOpts exWorld exFs with | .val st => st.events | _ => [])
      .openWrite true (nm "s0000000000.c") "w" true, .openWrite true (nm "s0000000001.c") "w" true, .exit 0] := by
   decide
 
+-- name-level reading of the property: a pre-existing symbolic link AT an output name is followed by fopen (its
+-- target is created / overwritten), `remove` of a matching link removes the link itself; a matching EMPTY
+-- directory is removed, a non-empty one is not (the later fopen of that name then fails and the run exits 1)
+example : writeEntry (some .linkDangling) = some (.linkFile true) ∧ writeEntry (some (.linkFile false)) = some (.linkFile true)
+    ∧ removeEntry (some (.linkFile false)) = some none ∧ removeEntry (some .dirEmpty) = some none
+    ∧ removeEntry (some .dirNonEmpty) = none ∧ writeEntry (some .dirNonEmpty) = none := by decide
+
 -- an output path that does not fit PATH_MAX is undefined behaviour of the C code, and the model says so
 example : (match runC exOpts { exWorld with pathMax := 9 } exFs with | .ub .bufferOverflow => true | _ => false) = true := by
   decide
